@@ -265,12 +265,18 @@ def merge(ctx, results, tag):
             ctx.disagreement(d["what"], d["replay"])
 
 
-def exhaustive_jobs(symbols, maxlen, nsplit_hint=12):
-    """One job per first symbol (plus the empty string in the first job); big first-symbol jobs are what they are —
-    the per-symbol subtrees have equal size."""
+def exhaustive_jobs(symbols, maxlen, target_jobs=24):
+    """Split the set of all concatenations of ≤ maxlen symbols into jobs of equal size by symbol-index prefix."""
+    import itertools
+    k = len(symbols)
+    p = 1
+    while k ** p < target_jobs and p < maxlen:
+        p += 1
+    prefixes = [list(t) for t in itertools.product(range(k), repeat=p)]
+    per = max(1, len(prefixes) // max(target_jobs, 1))
     jobs = []
-    for i in range(len(symbols)):
-        jobs.append({"kind": "exh", "symbols": symbols, "maxlen": maxlen, "first": [i], "empty": i == 0})
+    for i in range(0, len(prefixes), per):
+        jobs.append({"kind": "exh", "symbols": symbols, "maxlen": maxlen, "prefixes": prefixes[i:i + per], "shorter": i == 0})
     return jobs
 
 
